@@ -335,6 +335,35 @@ def body (cx : Ctx) (rec : Rec) (k : Nat) (kind : Kind) (a : AMode) (m : RMode) 
   | .state _ c =>
     (rec c a m { env with sd := env.sd + 1 } st).map (stateScope cx env.sd true)
 
+/-- The sub-rules a `match()` body of this kind can call (`rec` is applied to nothing else). -/
+def Kind.calls : Kind → List Nat
+  | .atom _ => []
+  | .seq cs => cs
+  | .sor cs => cs
+  | .starPartial cs => cs
+  | .partialR cs => cs
+  | .plus c => [c]
+  | .atR c => [c]
+  | .notAt c => [c]
+  | .until1 c => [c]
+  | .until2 c b => [c, b]
+  | .rep _ c => [c]
+  | .repMinMax _ _ c na => [c, na]
+  | .repOpt _ c => [c]
+  | .ifThenElse c t e => [c, t, e]
+  | .strict c r => [c, r]
+  | .starStrict c r => [c, r]
+  | .rematch h rs => h :: rs
+  | .must c => [c]
+  | .ifMust _ c mn => [c, mn]
+  | .raise _ => []
+  | .tryCatchReturnFalse _ c => [c]
+  | .tryCatchRaiseNested _ c => [c]
+  | .enable c => [c]
+  | .disable c => [c]
+  | .action _ c => [c]
+  | .state _ c => [c]
+
 /-- `use_guard` of match.hpp: `match()` itself takes a `required` guard exactly when an
     `apply` or a `bool`-returning `apply0` will be called. -/
 def useGuard (a : AMode) (act : ActionSpec) : Bool :=
